@@ -38,7 +38,7 @@ SLACK_PAGES = 8
 def gen_case(seed, tier):
     rng = random.Random('%s/c09' % seed)
     policy = rng.choice(('least-recently-stored', 'least-recently-used', 'least-frequently-used', 'none'))
-    settings = {'eviction_policy': policy, 'cull_limit': rng.choice((0, 1, 2, 10, 10)), 'statistics': rng.choice((0, 1)),
+    settings = {'eviction_policy': policy, 'cull_limit': rng.choice((0, 1, 2, 10, 10, 12, 25)), 'statistics': rng.choice((0, 1)),
                 'tag_index': 0, 'disk_min_file_size': rng.choice((256, 1024)), 'size_limit': rng.choice((100000, 200000, 400000))}
     fanout = rng.random() < 0.2
     n = rng.choice((30, 60, 100)) if tier == 'quick' else rng.choice((50, 120, 200))
